@@ -62,6 +62,9 @@ t06!(c15_t06_p000, 11);
 t06!(c15_t06_p001, 12);
 t06!(c15_t06_p009, 20);
 t06!(c15_t06_p064, 75);
+t06!(c15_t06_p033, 44);
+t06!(c15_t06_p100, 111);
+t06!(c15_t06_p114, 125);
 t06!(c15_t06_p115, 126);
 t06!(c15_t06_p119, 130);
 t06!(c15_t06_p120, 131);
@@ -69,12 +72,19 @@ t08!(c15_t08_p000, 7);
 t08!(c15_t08_p002, 9);
 t08!(c15_t08_p008, 15);
 t08!(c15_t08_p063, 70);
+t08!(c15_t08_p032, 39);
+t08!(c15_t08_p100, 107);
+t08!(c15_t08_p117, 124);
+t08!(c15_t08_p118, 125);
 t08!(c15_t08_p119, 126);
 t08!(c15_t08_p120, 127);
 t17!(c15_t17_p000, 15);
 t17!(c15_t17_p003, 18);
+t17!(c15_t17_p040, 55);
+t17!(c15_t17_p086, 101);
 t17!(c15_t17_p087, 102);
 t17!(c15_t17_p120, 135);
+
 
 pub mod ws {
     use super::*;
@@ -84,5 +94,6 @@ pub mod ws {
 pub mod wl {
     use super::*;
     crate::harnesses!(LL; plain; unwind 123; c15_t06_p064, c15_t06_p115, c15_t06_p119, c15_t06_p120, c15_t08_p063, c15_t08_p119,
-        c15_t08_p120, c15_t17_p087, c15_t17_p120);
+        c15_t08_p120, c15_t17_p087, c15_t17_p120, c15_t08_p032, c15_t08_p100, c15_t08_p117, c15_t08_p118, c15_t06_p033, c15_t06_p100,
+        c15_t06_p114, c15_t17_p040, c15_t17_p086);
 }
